@@ -107,6 +107,13 @@ INFO = {
  'C19-m6': ("CallArgs returns early for an empty argument list when the function is variadic", 'mandatory parameters plus a variadic tail called with CallArgs(): reflect panics with too few input arguments'),
  'C20-m5': ("the entry guard selects on a hoisted ctx.Done() instead of checking ctx.Err()", 'a context already cancelled by Err() whose Done() never closes (the shape the repo example uses): the channel yields a value and a producer is started'),
  'C20-m6': ("the final value is handed over by a blocking send with the ticker stopped", 'a context that reports cancellation through Err() only, the count-th value due while the buffer is full, then cancellation: the producer never re-checks and never exits unless drained'),
+ 'C05-m7': ("the parked getter's predicate skips the real check when the buffer length is unchanged since it last looked", 'a forced trim of k values and a Put of k values between two wake-ups of a parked Get (FixedBufferCleaner hovering at target plus a batched Put): the value is there, the Get stays parked'),
+ 'C08-m7': ("Send carries its pre-lock load of the state into the arming loop", 'a Send that starts while another Send is armed (blocked on a slow receiver): it validates the stale armed snapshot and panics although everybody obeyed the contract'),
+ 'C08-m8': ("negative Add checks its bound after negating the delta", 'exactly Add(math.MinInt): -delta overflows, the check passes, the packed operand is 0 and the call returns like Add(0)'),
+ 'C14-m7': ("shrinking retires workers by spawn slot instead of by live count", 'low-slot workers idle-exit while a high-slot worker is busy, then a Call with a smaller count queues behind it and nothing follows: the last worker retires with the queue non-empty'),
+ 'C14-m8': ("argument validation moved inside Call's critical section (explicit Unlock, no defer)", 'a rejected Call(0, f) (documented panic) recovered by its caller on a pool in use: the mutex is never released, queued and later calls never run'),
+ 'C15-m7': ("SubscribeCancel starts its unsubscribe watcher before SubscribeContext", 'a duplicate SubscribeCancel on an existing (key, target): it panics, the deferred cancel fires the watcher, which unsubscribes the ORIGINAL subscription'),
+ 'C15-m8': ("SubscribeCancel registers the subscription with the parent context instead of the derived one", 'the returned cancel function called while a publish is parked on that (non-receiving) target: the publish never returns and the internal Unsubscribe waits behind it'),
 
 }
 
